@@ -205,9 +205,14 @@ impl Cutter<'_> {
     fn cut(&mut self, lines: &[String], path: &str, depth: usize) {
         let mut out: Vec<String> = Vec::new();
         let mut i = 0;
+        // A directive is a statement of its own: it cannot stand *inside* another statement (a
+        // data list that goes on over several lines, a macro definition) the way pasted text can,
+        // so no cut starts on a line that continues the statement above it. A cut may well *end*
+        // inside such a statement: the included file then stops in the middle of it.
+        let continues = statement_continues(lines);
         while i < lines.len() {
             let remaining = lines.len() - i;
-            let want = self.left > 0 && depth < self.cfg.max_depth && remaining >= 1 && self.r.chance(1, (lines.len() as u64 / 3).max(2));
+            let want = self.left > 0 && !continues[i] && depth < self.cfg.max_depth && remaining >= 1 && self.r.chance(1, (lines.len() as u64 / 3).max(2));
             if want {
                 let len = 1 + self.r.usize(remaining.min(12));
                 self.left -= 1;
@@ -239,6 +244,27 @@ impl Cutter<'_> {
         let text = self.join(&out);
         self.files.insert(path.to_string(), text);
     }
+}
+
+/// For each line: does it continue the statement of the line above (a data list that goes on, the
+/// body and end of a macro definition)? A directive cannot be put in front of such a line.
+pub fn statement_continues<S: AsRef<str>>(lines: &[S]) -> Vec<bool> {
+    let mut continues = vec![false; lines.len()];
+    let mut in_macro = false;
+    for (k, l) in lines.iter().enumerate() {
+        let t = l.as_ref().trim_start();
+        if in_macro {
+            continues[k] = true;
+            if t.starts_with(".endmacro") {
+                in_macro = false;
+            }
+        } else if t.starts_with(".macro") {
+            in_macro = true;
+        } else if t.starts_with(|c: char| c.is_ascii_digit() || c == '-') {
+            continues[k] = true;
+        }
+    }
+    continues
 }
 
 /// Cut a program (lines) into an include tree. Pasting the result reproduces the lines.
